@@ -585,7 +585,7 @@ def cases(rng, tier):
     # compositions of 2 and 3 on the enumerated bases
     bases = list(enumerated_bases())
     for p in bases:
-        for _ in range(12 if not thorough else 150):
+        for _ in range(8 if not thorough else 150):
             T = []
             q = p
             for _ in range(rng.choice([2, 2, 3])):
@@ -598,7 +598,7 @@ def cases(rng, tier):
             if T:
                 yield _case(p, T, rng.choice(OPTSETS))
     # random bases of the URL grammar
-    n = 1500 if not thorough else 25000
+    n = 1000 if not thorough else 25000
     for _ in range(n):
         p = random_base(rng)
         for t in single_transforms(p, rng, False):
